@@ -21,9 +21,10 @@ EXTENDS Naturals, Sequences, FiniteSets, TLC
 AllScopes == <<"data", "builtin", "locals", "globals", "extra">>
 Chain(role) == IF role = "arg" THEN AllScopes ELSE SubSeq(AllScopes, 2, 5)
 Roles == {"arg", "callee"}
-\* how the name is written: an argument plain, back-quoted or as the value of a keyword argument;
+\* how the name is written: an argument plain, back-quoted, as the value of a keyword argument or inside an
+\* expression that is the value of a keyword argument;
 \* a callee plain, dotted with three components (a.b.f) or with four (a.b.c.f)
-Forms(role) == IF role = "arg" THEN {"plain", "backquoted", "keyword"} ELSE {"plain", "dotted", "dotted4"}
+Forms(role) == IF role = "arg" THEN {"plain", "backquoted", "keyword", "keyword_expr"} ELSE {"plain", "dotted", "dotted4"}
 \* definitions that must never be seen: other frames' locals / globals, and the interpreter's own
 \* built-in namespace (the probed name is spelled like a Python built-in such as max or abs)
 Decoys == {"locals_other_frame", "globals_other_frame", "python_builtins"}
@@ -35,7 +36,7 @@ vars == <<cfg, ptr, result>>
 
 Configs ==
   { [defined |-> d, decoys |-> x, role |-> r, form |-> f, env |-> k] :
-      d \in SUBSET {AllScopes[j] : j \in 1..5}, x \in SUBSET Decoys, r \in Roles, f \in {"plain", "backquoted", "keyword", "dotted", "dotted4"}, k \in 0..3 }
+      d \in SUBSET {AllScopes[j] : j \in 1..5}, x \in SUBSET Decoys, r \in Roles, f \in {"plain", "backquoted", "keyword", "keyword_expr", "dotted", "dotted4"}, k \in 0..3 }
 ValidCfg(c) == c.form \in Forms(c.role) /\ (c.role = "callee" => "data" \notin c.defined)
 Init == cfg \in {c \in Configs : ValidCfg(c)} /\ ptr = 1 /\ result = ""
 
